@@ -64,7 +64,10 @@ def gen(rng: random.Random, tier: str, idx: int) -> dict:
         setup.append({"kind": "delete_file", "tag": "sd", "k": 0, "with_append": True})
     mode = "damage" if idx % 4 != 3 else "transient"
     return {"backend": backend, "setup": setup, "mode": mode, "cases": None, "sample": 10 if tier == "quick" else None,
-            "k_seed": rng.randrange(1 << 30)}
+            "k_seed": rng.randrange(1 << 30),
+            # a writer that died between its metadata write and the pointer flip: a never-committed v(N+1) file with one
+            # more row exists next to the committed versions (legal state, C03) while the reads are damaged / failing
+            "dead_writer": mode == "transient" and rng.random() < 0.5}
 
 
 def shrink(plan: dict):
@@ -182,6 +185,16 @@ def execute(plan: dict, scratch: str, replay: Optional[dict] = None) -> dict:
     seed = plan.get("run_seed", 0)
     backend = plan["backend"]
     ph0 = common.run_setup(scratch, backend, seed, list(plan["setup"]))
+    if plan.get("dead_writer"):
+        ph1 = Phase(plan, scratch, backend, seed ^ 1, core.Policy(), start=ph0.sim.now + 1.0, store=ph0.world.store,
+                    faults=[{"kind": "crash", "proc": "pdead", "op": "replace" if backend == "local" else "put",
+                             "cls": "HINT", "nth": 1}])
+        ph1.actor("pdead", "dead", [{"kind": "append", "tag": "dw", "n": 1}])
+        ph1.run()
+        if len(ph1.world.flips):
+            raise core.HarnessError("dead writer flipped the pointer")
+        ph1.sim.probe("crash_orphan_present")
+        ph0 = ph1
     snap = common.Snapshot(ph0)
     st = ph0.world.state()
     files = _files(st)
